@@ -918,10 +918,10 @@ func propC06(r *Run, w *World) {
 		}
 		// Build returns toWireFormat of toAuditRuleData's result
 		okB := false
-		for _, ret := range returnsOf(x.build) {
+		for _, ret := range retEdges(x.build) {
 			if isNilConst(ret.Results[1]) {
 				undo := autoAlias(x.build)
-				okB = Term(ret.Results[0]) == "toWireFormat#1" && HoldsAt(ret.Block(), "toAuditRuleData#1#1 == nil")
+				okB = Term(ret.Results[0]) == "toWireFormat#1" && ret.Holds("toAuditRuleData#1#1 == nil")
 				for _, c := range callsIn(x.build, x.toWire) {
 					okB = okB && Term(c.Common().Args[0]) == "toAuditRuleData#1#0"
 				}
@@ -1008,8 +1008,8 @@ func propC06(r *Run, w *World) {
 		r.Check(okLen, "BufLen = len(Buf) after the last append", fn.Pos(), "", "BufLen is not len(Buf) taken after all strings were appended")
 		// field count guard
 		okCnt := false
-		for _, ret := range returnsOf(fn) {
-			if isNilConst(ret.Results[1]) && HoldsAt(ret.Block(), "len("+local+".fields) <= 64") {
+		for _, ret := range retEdges(fn) {
+			if isNilConst(ret.Results[1]) && ret.Holds("len("+local+".fields) <= 64") {
 				okCnt = true
 			}
 		}
@@ -1315,11 +1315,11 @@ func propC13(r *Run, w *World) {
 		maxF, _, _ := w.constUint("rule", "maxFields")
 		fn := x.fromARD
 		okCnt, okEnd := false, false
-		for _, ret := range returnsOf(fn) {
+		for _, ret := range retEdges(fn) {
 			if !isNilConst(ret.Results[0]) {
 				continue
 			}
-			for _, g := range GuardLits(ret.Block()) {
+			for _, g := range ret.Lits() {
 				if strings.HasSuffix(g, fmt.Sprintf(".FieldCount <= %d", maxF)) || strings.HasSuffix(g, fmt.Sprintf(".FieldCount < %d", maxF+1)) {
 					okCnt = true
 				}
@@ -1347,11 +1347,11 @@ func propC13(r *Run, w *World) {
 		r.Check(okEnd && nApp == 1, "string end <= BufLen", fn.Pos(), "", "a string is taken from the buffer without its end offset having been compared with the buffer length")
 		fw := x.fromWire
 		okHdr, okLen := false, false
-		for _, ret := range returnsOf(fw) {
+		for _, ret := range retEdges(fw) {
 			if !isNilConst(ret.Results[1]) {
 				continue
 			}
-			gl := GuardLits(ret.Block())
+			gl := ret.Lits()
 			for _, g := range gl {
 				if g == "len(p0) >= 1040" {
 					okHdr = true
@@ -1366,12 +1366,12 @@ func propC13(r *Run, w *World) {
 		undo := autoAlias(x.toCmd)
 		okDom := true
 		n := 0
-		for _, ret := range returnsOf(x.toCmd) {
+		for _, ret := range retEdges(x.toCmd) {
 			if !isNilConst(ret.Results[1]) {
 				continue
 			}
 			n++
-			if !HoldsAt(ret.Block(), "fromWireFormat#1#1 == nil") || !HoldsAt(ret.Block(), "fromAuditRuleData#1 == nil") {
+			if !ret.Holds("fromWireFormat#1#1 == nil") || !ret.Holds("fromAuditRuleData#1 == nil") {
 				okDom = false
 			}
 		}
